@@ -93,7 +93,8 @@ func substTree(s *slip.Scope, tree, rep, old slip.Object, kc, tc slip.Caller, de
 		dup := make(slip.List, len(list))
 		for i, e := range list {
 			if tail, ok2 := e.(slip.Tail); ok2 {
-				dup[i] = slip.Tail{Value: substTree(s, tail.Value, rep, old, kc, tc, depth)}
+				// The new cdr can be a list or nil.
+				return dup[:i].WithCdr(substTree(s, tail.Value, rep, old, kc, tc, depth))
 			} else {
 				dup[i] = substTree(s, e, rep, old, kc, tc, depth)
 			}
